@@ -7,7 +7,6 @@ import (
 	"context"
 	"sync"
 
-	"github.com/efficientgo/core/errors"
 	"github.com/prometheus/prometheus/model/labels"
 
 	"github.com/thanos-community/promql-engine/execution/model"
@@ -80,6 +79,11 @@ func (c *coalesceOperator) Next(ctx context.Context) ([]model.StepVector, error)
 		c.wg.Add(1)
 		go func(opIdx int, o model.VectorOperator) {
 			defer c.wg.Done()
+			defer func() {
+				if e := recover(); e != nil {
+					errChan <- model.PanicToError(e)
+				}
+			}()
 
 			in, err := o.Next(ctx)
 			if err != nil {
@@ -149,10 +153,7 @@ func (c *coalesceOperator) loadSeries(ctx context.Context) error {
 					return
 				}
 
-				switch err := e.(type) {
-				case error:
-					errChan <- errors.Wrapf(err, "unexpected error")
-				}
+				errChan <- model.PanicToError(e)
 
 			}()
 			series, err := c.operators[i].Series(ctx)
